@@ -6,7 +6,7 @@ Require Import XV.StripDefs.
 Open Scope list_scope.
 Import ListNotations.
 
-Definition ctx_string (st : pred) (c : ctx) : str := string_value st (c_pn c) (c_self c).
+Definition ctx_string (st : pred) (c : ctx) : str := string_value st (c_pk c) (c_self c).
 
 Definition all_matching (st : pred) (m : ntest) (d : node) : list ctx :=
   eval_path st [ {| s_axis := AxDescendantOrSelf; s_test := m; s_pred := PAll |} ] (root_ctx d).
